@@ -226,6 +226,9 @@ def witness_search(pid, budget_s=600, tests=None):
         except subprocess.TimeoutExpired:
             continue
         out = p.stdout + p.stderr
+        if p.returncode != 0 and re.search(r'error: could not compile|^error\[E\d+\]', out, re.M) and not re.search(r'^running \d+ tests?', out, re.M):
+            # the harness drives the public API of /repo's crates: a tree that changes that API cannot be exercised by it
+            raise RuntimeError('the witness harness does not compile against this tree (%s): %s' % (t, '; '.join(re.findall(r'^error[^\n]*', out, re.M)[:3])))
         if p.returncode != 0 and re.search(r'overflowed its stack|signal: (6|11)|SIGABRT|SIGSEGV', out) and not re.search(r'WITNESS ', out):
             # the test process itself died (stack overflow in the code under test): the last input announced before the crash
             tr = re.findall(r'^TRYING ([^\n]*)', out, re.M)
@@ -526,7 +529,9 @@ def main(argv):
                     witness = w
                     witness['bounded_stand_in_for'] = b['covers']
             except Exception as e:
-                ev['coverage']['bounded_checks'].append({'test': b['test'], 'result': 'not run: %s' % e})
+                ev['coverage']['bounded_checks'].append({'test': b['test'], 'stands_in_for': b['covers'], 'bound': b['bound'], 'result': 'not run: %s' % e})
+                undecided = 'bounded stand-in %s could not run: %s' % (b['test'], str(e)[:300])
+                ev['coverage']['undecided'] = undecided
     if a.tier == 'thorough':
         if not viol and not undecided and not witness:
             # (a) solver-seed / resource variation: the proofs must not depend on one lucky seed
